@@ -113,4 +113,164 @@ THEOREM ColdSrcAll ==
     \A k \in Pos, m2 \in Pos, tree \in Trees, v \in Int : \A t \in 0 .. (2 * m2 - 1) :
         ImplColdSrc(4 * k, 2 * m2, tree, v, t) = RefColdSrc(4 * k, 2 * m2, tree, v, t)
   BY ColdPosAll DEF ImplColdSrc, RefColdSrc
+
+(* ----------------------------------------------------------------------- *)
+(* C11, level >= 2, one axis, ALL sizes: for every even filter length m and *)
+(* every output row y the code's colifilt reads, for every tap of both      *)
+(* trees, the position of the extended column the reference reads (or       *)
+(* neither uses that tap for that row).                                     *)
+(* ----------------------------------------------------------------------- *)
+THEOREM IfiltPosAll ==
+    \A m2 \in Pos, hp \in BOOLEAN, tree \in Trees, y \in Nat : \A t \in 0 .. (2 * m2 - 1) :
+        ImplIfiltPos(2 * m2, hp, tree, y, t) = RefIfiltPos(2 * m2, ~hp, tree, y, t)
+  <1> TAKE m2 \in Pos, hp \in BOOLEAN, tree \in Trees, y \in Nat
+  <1> TAKE t \in 0 .. (2 * m2 - 1)
+  <1> DEFINE m == 2 * m2
+  <1> DEFINE v == y \div 4
+  <1> DEFINE g == y % 4
+  <1> DEFINE idx == t \div 2
+  <1> DEFINE par == t % 2
+  <1> DEFINE e == m2 % 2
+  <1> DEFINE q == v + m2 - 1 - idx
+  <1>0. m2 \in Int /\ t \in Int /\ y \in Int /\ m2 >= 1 /\ t >= 0 /\ t <= 2 * m2 - 1  BY DEF Pos
+  <1>1. m \div 2 = m2
+    <2>1. m = 2 * m2 + 0 /\ m \in Int /\ 0 \in 0 .. 1  BY <1>0
+    <2> HIDE DEF m
+    <2> QED BY <2>1, <1>0, Half
+  <1>2. t = 2 * idx + par /\ par \in 0 .. 1 /\ idx \in Int
+    <2>1. 2 \in Pos  BY DEF Pos
+    <2> QED BY <2>1, <1>0, DivMod
+  <1>3. g \in 0 .. 3 /\ v \in Int
+    <2>1. 4 \in Pos  BY DEF Pos
+    <2> QED BY <2>1, <1>0, DivMod
+  <1>4. e \in 0 .. 1
+    <2>1. 2 \in Pos  BY DEF Pos
+    <2> QED BY <2>1, <1>0, DivMod
+  <1>5. q \in Int /\ idx >= 0 /\ idx <= m2 - 1
+    <2> HIDE DEF idx, par, v
+    <2>1. idx >= 0 /\ idx <= m2 - 1  BY ONLY <1>0, <1>2
+    <2> QED BY <2>1, <1>0, <1>2, <1>3 DEF q
+  <1> DEFINE kindOdd == IF e = 0 THEN g >= 2 ELSE g < 2
+  <1> DEFINE num == IF kindOdd THEN m - 2 - t ELSE m - 1 - t
+  <1> DEFINE gtree == IF g % 2 = 0 THEN "a" ELSE "b"
+  <1> DEFINE w == m2 - 1 - idx
+  (* the validity test of the code: the tap has the parity of the sub-filter, and then num/2 = m2-1-idx *)
+  <1>6. ASSUME kindOdd <=> (par = 0)
+        PROVE  ImplIfiltPos(m, hp, tree, y, t) = IF gtree # tree THEN -1 ELSE IfiltStart(e = 0, hp, g) + 2 * q
+    <2>1. num = 2 * w + 0 /\ num \in Int /\ w \in Int /\ 0 \in 0 .. 1 /\ w >= 0 /\ w < m2
+      <3> HIDE DEF idx, par, kindOdd
+      <3>1. CASE kindOdd
+        <4>1. par = 0  BY <3>1, <1>6
+        <4> QED BY ONLY <4>1, <3>1, <1>0, <1>2, <1>5 DEF num, w, m
+      <3>2. CASE ~kindOdd
+        <4>1. par = 1  BY <3>2, <1>6, <1>2
+        <4> QED BY ONLY <4>1, <3>2, <1>0, <1>2, <1>5 DEF num, w, m
+      <3> QED BY <3>1, <3>2
+    <2>2. num \div 2 = w /\ num % 2 = 0
+      <3> HIDE DEF num, w
+      <3> QED BY <2>1, Half
+    <2>3. ~(num < 0 \/ num % 2 # 0 \/ (num \div 2) >= m2)
+      <3> HIDE DEF num, w
+      <3> QED BY ONLY <2>1, <2>2, <1>0
+    <2>4. ImplIfiltPos(m, hp, tree, y, t) =
+              IF gtree # tree THEN -1 ELSE IfiltStart(e = 0, hp, g) + 2 * (v + w)
+      BY <1>1, <2>2, <2>3 DEF ImplIfiltPos
+    <2>5. v + w = q  BY <1>3, <1>5, <1>0 DEF q, w
+    <2> QED BY <2>4, <2>5
+  <1>7. ASSUME ~(kindOdd <=> (par = 0))
+        PROVE  ImplIfiltPos(m, hp, tree, y, t) = -1
+    <2> DEFINE w2 == IF kindOdd THEN m2 - 2 - idx ELSE m2 - 1 - idx
+    <2>1. num = 2 * w2 + 1 /\ num \in Int /\ w2 \in Int /\ 1 \in 0 .. 1
+      <3> HIDE DEF idx, par, kindOdd
+      <3>1. CASE kindOdd
+        <4>1. par = 1  BY <3>1, <1>7, <1>2
+        <4> QED BY ONLY <4>1, <3>1, <1>0, <1>2, <1>5 DEF num, w2, m
+      <3>2. CASE ~kindOdd
+        <4>1. par = 0  BY <3>2, <1>7
+        <4> QED BY ONLY <4>1, <3>2, <1>0, <1>2, <1>5 DEF num, w2, m
+      <3> QED BY <3>1, <3>2
+    <2>2. num % 2 = 1
+      <3> HIDE DEF num, w2
+      <3> QED BY <2>1, Half
+    <2>3. ImplIfiltPos(m, hp, tree, y, t) = -1  BY <1>1, <2>2 DEF ImplIfiltPos
+    <2> QED BY <2>3
+  <1>8. ImplIfiltPos(m, hp, tree, y, t) =
+            IF gtree # tree THEN -1
+            ELSE IF kindOdd <=> (par = 0) THEN IfiltStart(e = 0, hp, g) + 2 * q ELSE -1
+    BY <1>6, <1>7
+  <1>9. RefIfiltPos(m, ~hp, tree, y, t) =
+          IF e = 0 THEN
+            LET T  == 3 + 2 * q
+                Ta == IF ~hp THEN T ELSE T - 1
+                Tb == IF ~hp THEN T - 1 ELSE T
+            IN  IF tree = "a"
+                THEN (IF g = 0 /\ par = 1 THEN Tb - 2 ELSE IF g = 2 /\ par = 0 THEN Tb ELSE -1)
+                ELSE (IF g = 1 /\ par = 1 THEN Ta - 2 ELSE IF g = 3 /\ par = 0 THEN Ta ELSE -1)
+          ELSE
+            LET T  == 2 + 2 * q
+                Ta == IF ~hp THEN T ELSE T - 1
+                Tb == IF ~hp THEN T - 1 ELSE T
+            IN  IF tree = "a"
+                THEN (IF g = 0 /\ par = 0 THEN Tb ELSE IF g = 2 /\ par = 1 THEN Tb ELSE -1)
+                ELSE (IF g = 1 /\ par = 0 THEN Ta ELSE IF g = 3 /\ par = 1 THEN Ta ELSE -1)
+    BY <1>1 DEF RefIfiltPos
+  <1>10. gtree = (IF g = 0 \/ g = 2 THEN "a" ELSE "b")
+    <2>1. CASE g = 0  BY <2>1
+    <2>2. CASE g = 1  BY <2>2
+    <2>3. CASE g = 2  BY <2>3
+    <2>4. CASE g = 3  BY <2>4
+    <2> QED BY <1>3, <2>1, <2>2, <2>3, <2>4
+  <1> HIDE DEF g, par, e, q, idx, v, m, gtree
+  <1>11. (IF (IF g = 0 \/ g = 2 THEN "a" ELSE "b") # tree THEN -1
+          ELSE IF (IF e = 0 THEN g >= 2 ELSE g < 2) <=> (par = 0) THEN IfiltStart(e = 0, hp, g) + 2 * q ELSE -1)
+         = (IF e = 0 THEN
+            LET T  == 3 + 2 * q
+                Ta == IF ~hp THEN T ELSE T - 1
+                Tb == IF ~hp THEN T - 1 ELSE T
+            IN  IF tree = "a"
+                THEN (IF g = 0 /\ par = 1 THEN Tb - 2 ELSE IF g = 2 /\ par = 0 THEN Tb ELSE -1)
+                ELSE (IF g = 1 /\ par = 1 THEN Ta - 2 ELSE IF g = 3 /\ par = 0 THEN Ta ELSE -1)
+          ELSE
+            LET T  == 2 + 2 * q
+                Ta == IF ~hp THEN T ELSE T - 1
+                Tb == IF ~hp THEN T - 1 ELSE T
+            IN  IF tree = "a"
+                THEN (IF g = 0 /\ par = 0 THEN Tb ELSE IF g = 2 /\ par = 1 THEN Tb ELSE -1)
+                ELSE (IF g = 1 /\ par = 0 THEN Ta ELSE IF g = 3 /\ par = 1 THEN Ta ELSE -1))
+    <2>1. g \in 0 .. 3 /\ par \in 0 .. 1 /\ e \in 0 .. 1 /\ q \in Int /\ tree \in {"a", "b"} /\ hp \in BOOLEAN
+      BY <1>2, <1>3, <1>4, <1>5 DEF Trees
+    <2>2. CASE e = 0 /\ hp = TRUE   BY ONLY <2>1, <2>2 DEF IfiltStart
+    <2>3. CASE e = 0 /\ hp = FALSE
+      <3>0. ~hp  BY <2>3
+      <3>1. CASE tree = "a"
+        <4>0. CASE g = 0  BY ONLY <2>1, <2>3, <3>0, <3>1, <4>0 DEF IfiltStart
+        <4>1. CASE g = 1  BY ONLY <2>1, <2>3, <3>0, <3>1, <4>1 DEF IfiltStart
+        <4>2. CASE g = 2  BY ONLY <2>1, <2>3, <3>0, <3>1, <4>2 DEF IfiltStart
+        <4>3. CASE g = 3  BY ONLY <2>1, <2>3, <3>0, <3>1, <4>3 DEF IfiltStart
+        <4> QED BY <2>1, <4>0, <4>1, <4>2, <4>3
+      <3>2. CASE tree = "b"
+        <4>0. CASE g = 0  BY ONLY <2>1, <2>3, <3>0, <3>2, <4>0 DEF IfiltStart
+        <4>1. CASE g = 1  BY ONLY <2>1, <2>3, <3>0, <3>2, <4>1 DEF IfiltStart
+        <4>2. CASE g = 2  BY ONLY <2>1, <2>3, <3>0, <3>2, <4>2 DEF IfiltStart
+        <4>3. CASE g = 3  BY ONLY <2>1, <2>3, <3>0, <3>2, <4>3 DEF IfiltStart
+        <4> QED BY <2>1, <4>0, <4>1, <4>2, <4>3
+      <3> QED BY <2>1, <3>1, <3>2
+    <2>4. CASE e = 1 /\ hp = TRUE   BY ONLY <2>1, <2>4 DEF IfiltStart
+    <2>5. CASE e = 1 /\ hp = FALSE
+      <3>0. ~hp  BY <2>5
+      <3>1. CASE tree = "a"
+        <4>0. CASE g = 0  BY ONLY <2>1, <2>5, <3>0, <3>1, <4>0 DEF IfiltStart
+        <4>1. CASE g = 1  BY ONLY <2>1, <2>5, <3>0, <3>1, <4>1 DEF IfiltStart
+        <4>2. CASE g = 2  BY ONLY <2>1, <2>5, <3>0, <3>1, <4>2 DEF IfiltStart
+        <4>3. CASE g = 3  BY ONLY <2>1, <2>5, <3>0, <3>1, <4>3 DEF IfiltStart
+        <4> QED BY <2>1, <4>0, <4>1, <4>2, <4>3
+      <3>2. CASE tree = "b"
+        <4>0. CASE g = 0  BY ONLY <2>1, <2>5, <3>0, <3>2, <4>0 DEF IfiltStart
+        <4>1. CASE g = 1  BY ONLY <2>1, <2>5, <3>0, <3>2, <4>1 DEF IfiltStart
+        <4>2. CASE g = 2  BY ONLY <2>1, <2>5, <3>0, <3>2, <4>2 DEF IfiltStart
+        <4>3. CASE g = 3  BY ONLY <2>1, <2>5, <3>0, <3>2, <4>3 DEF IfiltStart
+        <4> QED BY <2>1, <4>0, <4>1, <4>2, <4>3
+      <3> QED BY <2>1, <3>1, <3>2
+    <2> QED BY <2>1, <2>2, <2>3, <2>4, <2>5
+  <1> QED BY <1>8, <1>9, <1>10, <1>11 DEF kindOdd, m
 =============================================================================
